@@ -349,6 +349,8 @@ func instrumentFile(p *packages.Package, f *ast.File, fe *fileEdits, st *stats) 
 
 	// labels attached to range statements, needed by R1
 	labelOf := map[*ast.RangeStmt]*ast.LabeledStmt{}
+	// sends and receives that are the communication of a select case: left as they are
+	selectComm := map[ast.Node]bool{}
 
 	ast.Inspect(f, func(n ast.Node) bool {
 		switch n := n.(type) {
@@ -387,6 +389,24 @@ func instrumentFile(p *packages.Package, f *ast.File, fe *fileEdits, st *stats) 
 			}
 		case *ast.SelectStmt:
 			st.Warnings = append(st.Warnings, site(n.Pos())+": select statement inside package spec is not modelled by the scheduler")
+			// the communication of a select case must stay a plain send or receive
+			for _, c := range n.Body.List {
+				if cc, ok := c.(*ast.CommClause); ok && cc.Comm != nil {
+					ast.Inspect(cc.Comm, func(x ast.Node) bool {
+						switch x := x.(type) {
+						case *ast.SendStmt:
+							selectComm[x] = true
+						case *ast.UnaryExpr:
+							if x.Op == token.ARROW {
+								selectComm[x] = true
+							}
+						case *ast.AssignStmt:
+							selectComm[x] = true
+						}
+						return true
+					})
+				}
+			}
 		case *ast.RangeStmt:
 			if t := info.TypeOf(n.X); t != nil {
 				if _, isChan := t.Underlying().(*types.Chan); isChan {
@@ -395,12 +415,15 @@ func instrumentFile(p *packages.Package, f *ast.File, fe *fileEdits, st *stats) 
 			}
 		case *ast.SendStmt:
 			// ---------------------------------------------------------------- R2 channel modelling
+			if selectComm[n] {
+				return true
+			}
 			fe.edits = append(fe.edits, edit{off(n.Pos()), off(n.End()), fmt.Sprintf("verifSend(%s, %s, %q)", text(n.Chan), text(n.Value), site(n.Pos())), 1})
 			st.Locks++
 			return false
 		case *ast.AssignStmt:
 			// v, ok := <-ch
-			if len(n.Lhs) == 2 && len(n.Rhs) == 1 {
+			if len(n.Lhs) == 2 && len(n.Rhs) == 1 && !selectComm[n] {
 				if u, ok := n.Rhs[0].(*ast.UnaryExpr); ok && u.Op == token.ARROW {
 					fe.edits = append(fe.edits, edit{off(u.Pos()), off(u.End()), fmt.Sprintf("verifRecv2(%s, %q)", text(u.X), site(u.Pos())), 1})
 					st.Locks++
@@ -408,7 +431,7 @@ func instrumentFile(p *packages.Package, f *ast.File, fe *fileEdits, st *stats) 
 				}
 			}
 		case *ast.UnaryExpr:
-			if n.Op == token.ARROW {
+			if n.Op == token.ARROW && !selectComm[n] {
 				fe.edits = append(fe.edits, edit{off(n.Pos()), off(n.End()), fmt.Sprintf("verifRecv(%s, %q)", text(n.X), site(n.Pos())), 1})
 				st.Locks++
 				return false
@@ -762,7 +785,7 @@ func verifSend[T any](ch chan<- T, v T, site string) {
 	}
 }
 
-func verifClose[T any](ch chan T) {
+func verifClose[C ~chan T | ~chan<- T, T any](ch C) {
 	close(ch)
 	if r := VerifHooks.Release; r != nil {
 		r(ch)
